@@ -161,3 +161,11 @@ def same(interp, a, b):
     """a == b on this path (taking the path's refinements and run unfoldings into account)."""
     lo, hi = interp.lin_interval(Lin.of(a) - Lin.of(b))
     return lo == 0 and hi == 0
+
+
+def congruent_on_path(interp, a, b, m):
+    if congruent(interp.resolve(Lin.of(a)), interp.resolve(Lin.of(b)), m):
+        return True
+    d = expand_mods(interp.resolve(Lin.of(a) - Lin.of(b)), m)
+    lo, hi = interp.lin_interval(d)
+    return lo == hi and lo % m == 0
